@@ -509,8 +509,10 @@ func (d *daemon) RoundTrip(req *http.Request) (*http.Response, error) {
 				}
 			}
 		}()
+		// (as net/http's client hands it over: the announced trailer keys are moved
+		// from the "Trailer" header into Response.Trailer, the header itself is gone)
 		return &http.Response{StatusCode: 200, Status: "200 OK", Proto: "HTTP/1.1", ProtoMajor: 1, ProtoMinor: 1,
-			Header: http.Header{"Content-Type": []string{"application/json"}, "Trailer": []string{"X-Stream-Error"}}, Body: body, Request: req, Trailer: trailer}, nil
+			Header: http.Header{"Content-Type": []string{"application/json"}}, Body: body, Request: req, Trailer: trailer}, nil
 	}
 	return jsonResp(req, 200, "{}", nil), nil
 }
